@@ -255,11 +255,49 @@ def check(run):
     for c in cases:
         run.count('nblocks=%d' % len(c['blocks']))
     res = common.standard_flow(run, spec, cases)
+    check_fsm_guard(run)
     for c, o, ch in res:
         run.count('init_' + str(o['init_err']))
         for t in o['tops']:
             run.count('top_' + t['out'] + ('_aborted' if t['aborted'] else ''))
 
 
+def check_fsm_guard(run):
+    """The documented exception of the guard - one chained FSM transition - and its limits:
+    an exit action that sends an event to its own FSM must be refused.  Uses the FSM model and
+    harness of C03 on cases that all contain such exit actions and chaining entry actions."""
+    from . import c03
+    spec = c03.C03()
+    cases = []
+    rng = run.rng
+    while len(cases) < (150 if run.tier == 'quick' else 1500):
+        c = c03.gen_case(rng, nstates=rng.choice([2, 3]))
+        ins = c['inst']
+        st = rng.choice(c['def']['states'])
+        key = rng.choice(['exit_inst', 'exit_meth'])
+        ins[key] = [x for x in ins[key] if x[0] != st] + [[st, 'self']]
+        ekey = rng.choice(['enter_inst', 'enter_meth'])
+        tgt = rng.choice(c['def']['states'])
+        ins[ekey] = [x for x in ins[ekey] if x[0] != st] + [[st, [['self', ['goto', tgt], 900]]]]
+        cases.append(c)
+    res = common.evaluate(run, spec, cases, tag='fsm')
+    for c, o, ch in res:
+        run.add_case(c, spec.nontrivial(c, o))
+        run.count('fsm_guard_verdict_' + ch)
+    bad = [r for r in res if r[2] != 'A']
+    if bad:
+        bad.sort(key=lambda r: len(repr(r[0])))
+        c, o, ch = bad[0]
+        run.violation('monitor', dict(case=c, observed=o),
+                      "FSM: an event sent by an exit action to its own FSM (or a chained transition) "
+                      "was not handled as the model of the guard prescribes: " + spec.describe(c, o)[:1500],
+                      clause='fsm_exit_reentry', concrete=True)
+
+
 def replay(run, path):
+    import json
+    payload = json.loads((common.VERIF / path).read_text() if not path.startswith('/') else open(path).read())
+    if payload.get('clause') == 'fsm_exit_reentry':
+        from . import c03
+        return common.std_replay(run, c03.C03(), path)
     return common.std_replay(run, C11(), path)
